@@ -326,3 +326,27 @@ void h_poll_notify_fd_sync(void)
 	__CPROVER_assert(IMPLIES(r == 0, v_state.u.poll.num_regd_fds == n0 + 1 && v_F.u.index == n0), "[C02] an accepted one is added to the array");
 	CANARY();
 }
+
+/* ---- register_fd, init, deinit --------------------------------------------- */
+void h_poll_register_fd(void)
+{
+	v_build();
+	v_F.u.index = 12345;
+	iv_fd_poll_register_fd(&v_state, &v_F);
+	__CPROVER_assert(v_F.u.index == -1, "[C03,C02] a freshly registered descriptor owns no slot until it wants a band");
+	CANARY();
+}
+
+void h_poll_init_deinit(void)
+{
+	int r;
+	struct iv_state st;
+
+	r = iv_fd_poll_init(&st);
+	__CPROVER_assert(r == 0 || r == -1, "init verdict");
+	if (r == 0) {
+		__CPROVER_assert(st.u.poll.num_regd_fds == 0 && st.u.poll.pfds != NULL && st.u.poll.fds != NULL, "[C18] both arrays allocated, nothing registered");
+		iv_fd_poll_deinit(&st);	/* with --memory-leak-check: both arrays are released */
+	}
+	CANARY();
+}
